@@ -46,6 +46,9 @@ CLAIMED = {
  "C15": ("writeString (the string escaper) for every string of <=3 (quick) / <=4 (thorough) arbitrary bytes that is valid UTF-8, with and without HTML escaping: the output must be one well-formed JSON string that a reference RFC 8259 parser decodes to the stored text; every invalid-UTF-8 string of <=2 bytes must still give well-formed output. The real JSONWtr (over nodeutil.Extend/Basic, bufio.Writer and bytes.Buffer, all interpreted from source) writes symbolic trees of a schema with string, int8, uint8, boolean, enumeration, empty, decimal64, leaf-list, identityref, nested / empty containers, lists and empty lists; the output is parsed by the reference parser and checked member by member: exactly one value, names (module-qualified at the top level when asked), objects/arrays by node kind, [null] for empty, numbers/booleans/enums (by name or id) equal to the stored values, Pretty vs compact, start selection container / list / list entry, and a failing output stream must surface its error.",
          NOTE_COMMON + "Outside the claim: int8 values are an enumerated set and decimal64 values concrete (symbolic signed Itoa / FormatFloat are out of reach within minutes), bits / binary / union / anydata leaves, augmenting modules, nesting deeper than 2, every failing position of the output stream (only the single flush of a small document).",
          "DESIGN.md §2 C15"),
+ "C04": ("Export: the real editor copies a symbolic reference tree (scalars, leaf-lists, nested container, choice, nested lists with a compound key) into a capturing store whose callback log is checked: the copy equals the source plus schema defaults, every leaf / container / entry is written exactly once, list entries arrive in source order. Round trip: the same trees are written by the real JSONWtr (compact and pretty+qualified), parsed by the reference RFC 8259 parser, converted to exactly what encoding/json hands the reader (float64 numbers, maps, slices) and read back through the real JsonContainerReader/JsonListReader + node.NewValue into a fresh store, which must equal the source. Every numeric leaf type is additionally sent through the reader at full width as float64(v).",
+         NOTE_COMMON + "Outside the claim: encoding/json's decoder itself (replaced by the reference parser: an explicit assumption), reflection-backed source nodes, numbers in the text round trip are enumerated (a symbolic number would cost a floating-point query per reader branch), bits/binary/union/identityref leaves. Known finding C04-int64-beyond-2-53.",
+         "DESIGN.md §2 C04"),
 }
 NA_REASON = "engine under construction; no check registered yet"
 
